@@ -31,6 +31,13 @@ type Plan struct {
 	TickNs     int64   `json:"tick_ns,omitempty"`
 	ClockJumps []int64 `json:"clock_jumps,omitempty"`
 	NumCPU     int     `json:"ncpu,omitempty"`
+	// Slab: private and lock-protected cells of one version are adjacent
+	// elements of one array (a caller's []CVSSxx); a parse result is copied
+	// into its cell instead of being kept by pointer.
+	Slab bool `json:"slab,omitempty"`
+	// LoudObs: oracle observations (reading all metrics, well-formedness)
+	// run as ordinary, preemptible caller code instead of unscheduled.
+	LoudObs bool `json:"loud_obs,omitempty"`
 }
 
 // Cell sharing modes.
